@@ -72,6 +72,7 @@ PointFails(e) ==
 (* --- the decision rule (C02) ------------------------------------------------------------------ *)
 ArgMaxFails(pts, t) ==
   IF sn.lost = "unknown" THEN {} ELSE
+  IF strials < scfg.jfrom \/ strials % scfg.jstride # 0 THEN {} ELSE     \* very long runs: judged at sampled trials (state tracked at all)
   LET Rt == pts[t].R
       St == CharScale(pts[t - 1].z, pts[t].z, pts[t].d, rM, sZ) IN
   \* (the rounding allowance is evaluated only for the intervals whose characteristic exceeds the chosen one at all)
